@@ -22,9 +22,11 @@ SEEDS = {
  'C09a': ('C09', 'back is_exit_state_active: scans nr_regions of the OUTER machine', 'exit point in the 2nd/3rd region of a submachine whose outer machine has fewer regions'),
  'C08b': ('C08', 'backmp11 history_impl<shallow_history>: the memory array is value-initialised instead of starting at the initial state ids (same idea as C03a, found independently)', 'first-ever entry through an event of the history list with a region whose initial state is not id 0'),
  'C09b': ('C09', 'backmp11 on_explicit_entry: untargeted regions are set to the initial state ids instead of asking the history policy', 'explicit entry / entry point / partial fork into a multi-region submachine with (always_)shallow_history after a previous visit'),
+ 'C09c': ('C09', 'back/back11 is_exit_state_active: the scan ends at the ENCLOSING machine\'s region count (same idea as C09a, found independently)', 'exit point in a region of the submachine whose index is >= the outer machine\'s region count'),
  'C10a': ('C10', 'backmp11 process_event_internal: the event pool is drained only after a direct call', 'completion-source state inside a submachine reached by a forwarded event'),
  'C10c': ('C10', 'backmp11 process_completion_transition: the busy mark is no longer SET (a reset-only scope guard replaces the set/clear pair)', 'a behaviour inside a completion transition calls process_event: dispatched mid-chain against a state being left'),
  'C11a': ('C11', 'backmp11 process_event_internal: blocking test moved after the event-pool block', 'interrupt state active while another region defers the event / event raised by the end-interrupt action'),
+ 'C11c': ('C11', 'backmp11 process_event_internal: blocking test moved behind the event-pool section (same idea as C11a, found independently)', 'interrupt state active while another region defers the submitted event'),
  'C12a': ('C12', 'backmp11: result pre-initialised and OR-ed through a reference, handler assignment dropped', 'exception in a region dispatched after a region that already handled the event'),
  'C12b': ('C12', 'backmp11 process_completion_transition: the catch handler returns HANDLED_FALSE at once, skipping m_event_processing = false', 'throw from a behaviour of a completion transition reached through process_event, nothing else pending'),
  'C12c': ('C12', 'back do_process_helper: the catch handler restores a snapshot of m_states ("make a failed event atomic")', 'throw after m_states was already switched: a later region of an orthogonal machine, or a non-default switch policy'),
@@ -42,6 +44,7 @@ SEEDS = {
  'C16b': ('C16', 'back11 serialize: m_states archived only when the machine is not contained ("the history policy has it")', 'nested back11 machine saved while the submachine is active and past its initial state'),
  'C17a': ('C17', 'back is_flag_active fold: wrong early break', '>= 3 regions where regions 0 and 1 agree and a later one differs'),
  'C17b': ('C17', 'backmp11 recursive_visit_set: submachine_needs_traversal computed from the submachine\'s DIRECT states only (a type computation)', 'flag carried only by a state two or more submachine levels below the queried machine'),
+ 'C17c': ('C17', 'back init_flags: a submachine gets the forwarding flag handler only if one of its DIRECT states carries the flag (new type-level test)', 'flag carried only by a state two or more levels below the queried machine (back)'),
  'C18a': ('C18', 'back defer_event_kleene_helper: binds the functor argument ev (default-constructed type carrier) instead of any_cast<Event>(m_event)', 'Kleene row that defers (front::Defer) an event whose payload differs from a default-constructed one'),
  'C02b': ('C02', 'backmp11 state_visitor_impl active visit: loops interchanged (state list outer, regions inner)', 'exit of a multi-region machine while an earlier region is in a state with a larger id than a later region'),
  'C03b': ('C03', 'back start(): re-initialisation of m_states from the initial states removed ("the constructor did it")', 'stop() and start() again with a region off its initial state'),
